@@ -25,7 +25,10 @@ RULE = ("op lines come from one seeded PRNG: valid payloads of every witness ver
         "separator, case variant and non-alphabet characters), adjacent transposition, case flip and truncation; "
         "a case is non-trivial when the implementation did not refuse it; distinct = distinct (stream, op line)")
 TRUSTED = [
-    "hand models Model/C06/{Bech32,BitRegroup,Base58,Address}.lean tied by correspondence only",
+    "hand models Model/C06/{Bech32,BitRegroup,Base58,Address,KeyText,Slip132}.lean tied by correspondence only "
+    "(Slip132's field choices are regenerated from slip132.py's AST)",
+    "the x-coordinate predicate of BIP32KeyData.assert_valid is a parameter of the theorems; the driver instantiates "
+    "it with Euler's criterion on secp256k1 (hand-written p and n), compared with btclib by the xkey.decv lines",
     "Model/C06/Bech32Ref.lean is a hand transcription of the BIP173/BIP350 reference python (the specification)",
     "SHA-256 in the driver is the shared Lean implementation (validated against hashlib by its own builder); "
     "hashes are parameters of every theorem",
@@ -203,6 +206,10 @@ def impl(line: str) -> str:  # noqa: PLR0911, PLR0912
         if op == "xkey.dec":
             from btclib.bip32 import BIP32KeyData
             d = BIP32KeyData.b58decode(unT(t[1]), check_validity=False)
+            return f"ok {hx(d.version)} {d.depth} {hx(d.parent_fingerprint)} {d.index} {hx(d.chain_code)} {hx(d.key)}"
+        if op == "xkey.decv":
+            from btclib.bip32 import BIP32KeyData
+            d = BIP32KeyData.b58decode(unT(t[1]))
             return f"ok {hx(d.version)} {d.depth} {hx(d.parent_fingerprint)} {d.index} {hx(d.chain_code)} {hx(d.key)}"
         if op == "xkey.enc":
             from btclib.bip32 import BIP32KeyData
@@ -1027,6 +1034,45 @@ def run(ctx):  # noqa: PLR0912, PLR0915
             lines.append(f"xkey.dec {T(' ' + xs + ' ')}")
     for n in (0, 4, 77, 79, 82):  # well-checksummed payloads of the wrong size
         lines.append(f"xkey.dec {T(base58.encode(common.rand_bytes(rng, n)).decode())}")
+        lines.append(f"xkey.decv {T(base58.encode(common.rand_bytes(rng, n)).decode())}")
+    # validity-checked reading (assert_valid): every version of every network + unknown ones x depth 0 / non-0 with
+    # zero / non-zero fingerprint and index x key prefixes 00 / 01 / 02 / 03 / 04 x scalars 0, 1, n-1, n, random and
+    # x-coordinates on / off the curve; records are serialized by hand (the encoder would refuse the invalid ones)
+    from btclib import network as N_
+    g_x = bytes.fromhex("79be667ef9dcbbac55a06295ce870b07029bfcdb2dce28d959f2815b16f81798")
+    versions = sorted({bytes(getattr(n, f)) for n in NETWORKS.values() for f, sz in N_._KEY_SIZE if sz == 4})
+    bodies = [g_x, common.rand_bytes(rng, 32), (5).to_bytes(32, "big"), bytes(32), (1).to_bytes(32, "big"),
+              (n_order - 1).to_bytes(32, "big"), n_order.to_bytes(32, "big"),
+              (2**256 - 2**32 - 977).to_bytes(32, "big"), (2**256 - 1).to_bytes(32, "big")]
+    for _ in range(ctx.n(260, 2000)):
+        # a valid record first (version-consistent prefix, root-consistent fingerprint / index, key in range) ...
+        ver = rng.choice(versions)
+        prv = ver in N_.XPRV_VERSIONS_ALL
+        depth = rng.choice([0, 1, 2, 255])
+        fp = bytes(4) if depth == 0 else common.rand_bytes(rng, 4)
+        index = 0 if depth == 0 else rng.choice([0, 1, rng.getrandbits(32), 0x80000000])
+        pre = b"\x00" if prv else rng.choice([b"\x02", b"\x03"])
+        body = rng.choice([(1).to_bytes(32, "big"), (n_order - 1).to_bytes(32, "big"),
+                           rng.randrange(1, n_order).to_bytes(32, "big")]) if prv else \
+            rng.choice([g_x, g_x, (1).to_bytes(32, "big"), common.rand_bytes(rng, 32)])
+        # ... then, four times in ten, one rule broken (or probed at its edge)
+        if rng.random() < 0.4:
+            what = rng.randrange(5)
+            if what == 0:
+                ver = rng.choice([common.rand_bytes(rng, 4), b"\x04\x88\xb2\x1f"])
+            elif what == 1:
+                depth, fp = 0, rng.choice([common.rand_bytes(rng, 4), b"\x00\x00\x00\x01", bytes(4)])
+            elif what == 2:
+                depth, index = 0, rng.choice([1, rng.getrandbits(32), 0x80000000, 0])
+            elif what == 3:
+                pre = rng.choice([b"\x00", b"\x02", b"\x03", b"\x01", b"\x04"])
+            else:
+                body = rng.choice(bodies)
+        raw = ver + bytes([depth]) + fp + index.to_bytes(4, "big") + common.rand_bytes(rng, 32) + pre + body
+        text = base58.encode(raw).decode()
+        lines.append(f"xkey.decv {T(text)}")
+        if rng.random() < 0.2:
+            lines.append(f"xkey.decv {T(' ' + text + chr(10))}")
     ctx.stream("xkey", lines)
 
     from btclib.network import xprvversions_from_network, xpubversions_from_network
